@@ -1,7 +1,7 @@
 import os
 import vlib
 
-THEOREMS = []
+THEOREMS = ["Dispenso.PoolAlloc." + t for t in ['C42_inv', 'C42_chunks_valid', 'C42_exclusive', 'C42_alloc_fresh', 'C42_clear_reuses', 'C42_alloc_prefers_reuse', 'C42_destroy_releases', 'C42_ledger', 'C42_balance_any', 'C42_lock_mutex', 'C42_lock_no_park']]
 
 
 def run(ctx, replay):
